@@ -7,8 +7,9 @@ Ev == Trace[l]
 TSearch == Ev.op = "csearch" /\ ~Ev.panic /\ Ev.ans = Ev.alone
 TOther  == Ev.op = "cother" /\ ~Ev.panic
 TTotal  == Ev.op = "ctotal" /\ Ev.total = Ev.want
+TOpts   == Ev.op = "coptions" /\ Ev.total = Ev.want      \* the callers' option values (boost maps) are left as they were
 TraceInit == l = 1
-TraceNext == l <= Len(Trace) /\ l' = l + 1 /\ (TSearch \/ TOther \/ TTotal)
+TraceNext == l <= Len(Trace) /\ l' = l + 1 /\ (TSearch \/ TOther \/ TTotal \/ TOpts)
 TraceSpec == TraceInit /\ [][TraceNext]_l
 TraceAccepted ==
     LET d == TLCGet("stats").diameter IN
